@@ -40,6 +40,9 @@ let () = run_protocol [
       VV (pipeline (gn d) (gv ang) (gv an) (gv per) (gzv mn) (gv spec) (gv z1) (gv z2) (gm p)) | _ -> failwith "arity");
   "f_reset", (function [] -> state := fs_empty; show_state true !state | _ -> failwith "arity");
   "f_state", (function [] -> show_state true !state | _ -> failwith "arity");
+  (* in-place edit through the array / list returned by the getter (extracted edit_period / edit_mode_no) *)
+  "f_edit_period", (function [p] -> state := edit_period !state (gv p); show_state true !state | _ -> failwith "arity");
+  "f_edit_mode_no", (function [m] -> state := edit_mode_no !state (gzv m); show_state true !state | _ -> failwith "arity");
   "f_update", (function [hm; d; tag; par; anis; seed; hp; per; hn; mn] ->
       let u = { u_model = (if gb hm then Some { m_dim = gn d; m_tag = gz tag; m_par = gv par; m_anis = gv anis } else None);
                 u_seed = gb seed;
